@@ -26,6 +26,11 @@ ROWS = {
          "DESIGN.md §3.2 Protected, §7 C19",
          "refusal injected by interposing mlock(); operations without a Result (clone, resize) may panic by design and must leak nothing",
          "TLA+ spec + TLC model checking; fault-injected behaviour replay"),
+ "C20": ("model_checking",
+         "TypeState.tla derives a verdict per cell (operation x container x protect mode x lock mode, plus the stream modes) from what the operation needs and the state grants; TLC checks TableSound against the state machine of Protected.tla in every reachable state; one Rust program per cell is generated from the table printed by TLC and judged by rustc (misuse must be rejected in the generated line, controls must compile and run without faulting)",
+         "DESIGN.md §3.2 Protected, §7 C20",
+         "rustc is the oracle; finite table, enumerated completely; Free cells recorded, never judged",
+         "TLA+ type-state table checked by TLC; generated programs judged by the compiler"),
 }
 NOT_YET = "check not built yet (work in progress; see DESIGN.md section 7)"
 
